@@ -521,4 +521,4 @@ MANIFEST = {
             "(the property does not list it). Lock release on failure is decided by the direct oracle and by C08's model.",
 }
 
-MANIFEST_ADDENDUM = "Also proved: inplace_through_view_failure_leaves_no_trace and inplace_on_base_with_view_failure_leaves_no_trace (the failure path of an update on a base with one live view, aimed at either: restore_old_graph on the two-placeholder graph gives back every tensor, the view link and every op's variable list; restore_two_inverts). Oracle additions: 48 scripted failure kinds incl. failures after the forward pass (unsupported result dtype, integer result with constant=False), rejected constant= values, floating-point traps and exceptions of user-defined operations, multi-pass clip into a tensor target — each on inputs holding gradients of an earlier epoch, flags read inside the exception handler and after it."
+MANIFEST_ADDENDUM = "Also proved: inplace_through_view_failure_leaves_no_trace and inplace_on_base_with_view_failure_leaves_no_trace (the failure path of an update on a base with one live view, aimed at either: restore_old_graph on the two-placeholder graph gives back every tensor, the view link and every op's variable list; restore_two_inverts). Oracle additions: 48 scripted failure kinds incl. failures after the forward pass (unsupported result dtype, integer result with constant=False), rejected constant= values, floating-point traps and exceptions of user-defined operations, multi-pass clip into a tensor target — each on inputs holding gradients of an earlier epoch, flags read inside the exception handler and after it. Round 5: a rejected constant= next to out= (tracked, untracked, unary, view target) writes nothing."
